@@ -3,31 +3,40 @@
 (* (a1 a2 a3 forward, b3 b2 b1 reverse; OMS k = span k) and a pool of five request classes:                          *)
 (*   dense    a dense comb (load +2 dB over the design reference) on spans 1-2, forced mode, free slot             *)
 (*   sat      saturating power (+4 dB) on spans 1-3, bidirectional, automatic mode, free slot                       *)
-(*   nopath   no route satisfies its strict constraint  (blocked before propagation)                                *)
-(*   badmode  forced mode whose threshold the path misses (blocked after propagation)                               *)
+(*   nopath   no route satisfies its STRICT include constraint  (blocked before propagation)                        *)
+(*   loose    the same request with the constraint LOOSE: served on the unconstrained route                         *)
+(*   badmode  bidirectional, automatic mode selection, no feasible mode (NO_FEASIBLE_MODE; the reverse check of the   *)
+(*            last explored mode fails too and must not rewrite the reason)                                          *)
 (*   slot     user-fixed slot at the bottom of the band on span 2: fails in spectrum assignment whenever an earlier   *)
 (*            served request already holds the bottom of span 2 - and pushes later free requests up when it is first *)
-(* TLC explores every ordering of every subset (325 non-empty histories) and the report of each.                     *)
+(* TLC explores every ordering of every subset (1956 non-empty histories) and the report of each.                     *)
 EXTENDS Planning, Json
 
-MCClasses == {"dense", "sat", "nopath", "badmode", "slot"}
+MCClasses == {"dense", "sat", "nopath", "loose", "badmode", "slot"}
 MCAmps    == {"a1", "a2", "a3", "b1", "b2", "b3"}
 MCOms     == {1, 2, 3}
 MCDesign  == [a \in MCAmps |-> [gain |-> 20, pmax |-> 21]]
 MCModes   == <<[name |-> "m3", thr |-> 29000000], [name |-> "m2", thr |-> 24000000], [name |-> "m1", thr |-> 20000000]>>
 Free(m)   == [n |-> NONE, m |-> m]
+R(short, rshort, include, hop, oms, load, mode, modes, slot, bidir, bw, type) ==
+    [short |-> short, rshort |-> rshort, include |-> include, hop |-> hop, via |-> <<>>, rvia |-> <<>>, oms |-> oms,
+     load |-> load, mode |-> mode, modes |-> modes, slot |-> slot, bidir |-> bidir, bw |-> bw, type |-> type]
 MCReq ==
   [c \in MCClasses |->
-     CASE c = "dense"   -> [path |-> <<"a1", "a2">>, rpath |-> <<"b2", "b1">>, oms |-> {1, 2}, load |-> 2, mode |-> "m2",
-                            slot |-> Free(2), noRoute |-> "", bidir |-> FALSE, bw |-> 10000, type |-> "T1"]
-       [] c = "sat"     -> [path |-> <<"a1", "a2", "a3">>, rpath |-> <<"b3", "b2", "b1">>, oms |-> {1, 2, 3}, load |-> 4,
-                            mode |-> "", slot |-> Free(2), noRoute |-> "", bidir |-> TRUE, bw |-> 20000, type |-> "T2"]
-       [] c = "nopath"  -> [path |-> <<>>, rpath |-> <<>>, oms |-> {}, load |-> 0, mode |-> "m1", slot |-> Free(1),
-                            noRoute |-> "NO_PATH_WITH_CONSTRAINT", bidir |-> FALSE, bw |-> 10000, type |-> "T1"]
-       [] c = "badmode" -> [path |-> <<"a1", "a2", "a3">>, rpath |-> <<"b3", "b2", "b1">>, oms |-> {1, 2, 3}, load |-> 0,
-                            mode |-> "m3", slot |-> Free(1), noRoute |-> "", bidir |-> FALSE, bw |-> 10000, type |-> "T3"]
-       [] c = "slot"    -> [path |-> <<"a2">>, rpath |-> <<"b2">>, oms |-> {2}, load |-> 0, mode |-> "m1",
-                            slot |-> [n |-> 0, m |-> 2], noRoute |-> "", bidir |-> FALSE, bw |-> 10000, type |-> "T1"]]
+     CASE c = "dense"   -> R(<<"a1", "a2">>, <<"b2", "b1">>, <<>>, "", {1, 2}, 2, "m2", {"m1", "m2", "m3"}, Free(2),
+                             FALSE, 10000, "T1")
+       [] c = "sat"     -> R(<<"a1", "a2", "a3">>, <<"b3", "b2", "b1">>, <<>>, "", {1, 2, 3}, 4, "", {"m1", "m2", "m3"},
+                             Free(2), TRUE, 20000, "T2")
+       \* nopath and loose: same ends, same include list (no route crosses it), they differ in the hop type only
+       [] c = "nopath"  -> R(<<"a1", "a2">>, <<"b2", "b1">>, <<"b3">>, "STRICT", {1, 2}, 0, "m1", {"m1", "m2", "m3"},
+                             Free(1), FALSE, 10000, "T1")
+       [] c = "loose"   -> R(<<"a1", "a2">>, <<"b2", "b1">>, <<"b3">>, "LOOSE", {1, 2}, 0, "m1", {"m1", "m2", "m3"},
+                             Free(1), FALSE, 10000, "T1")
+       \* badmode: bidirectional, automatic selection, no mode of its type is feasible; the reverse check fails as well
+       [] c = "badmode" -> R(<<"a1", "a2", "a3">>, <<"b3", "b2", "b1">>, <<>>, "", {1, 2, 3}, 0, "", {"m3"}, Free(1),
+                             TRUE, 10000, "T3")
+       [] c = "slot"    -> R(<<"a2">>, <<"b2">>, <<>>, "", {2}, 0, "m1", {"m1", "m2", "m3"}, [n |-> 0, m |-> 2],
+                             FALSE, 10000, "T1")]
 
 \* B2 emission: one line per non-empty history (before the report): the order and, per request, the model's verdict
 Status(c) == IF result[c].reason = "" THEN "served" ELSE result[c].reason
